@@ -373,7 +373,18 @@ func (fe *FuncEnc) enterLoop(f *Frame, li *loopInfo, reach Term, st *State) (Ter
 	// havoc
 	st = st.clone()
 	mods := fe.eng.loopModset(f.fn, li)
+	ldirty := fe.eng.loopDirty(f.fn, li)
 	preAlloc := map[string]Term{}
+	for c := range mods {
+		if as := freshFrameAlloc(c); as != "" && !ldirty[c] {
+			if _, done := preAlloc[as]; !done {
+				if _, known := fe.eng.compSorts[as]; known {
+					preAlloc[as] = fe.atom(fe.comp(st, as, arrSort(SInt, SBool)))
+					st.heap[as] = preAlloc[as]
+				}
+			}
+		}
+	}
 	for c := range mods {
 		if owner, ok := fe.eng.compOwner[c]; ok && !fe.eng.notCtorOnly[c] {
 			if _, done := preAlloc[owner]; !done {
@@ -395,6 +406,11 @@ func (fe *FuncEnc) enterLoop(f *Frame, li *loopInfo, reach Term, st *State) (Ter
 		st.heap[c] = nw
 		if owner, ok := fe.eng.compOwner[c]; ok && !fe.eng.notCtorOnly[c] {
 			fe.ctorFrame(st, c, old, nw, preAlloc[owner])
+		}
+		if as := freshFrameAlloc(c); as != "" && !ldirty[c] {
+			if a, ok := preAlloc[as]; ok {
+				fe.ctorFrame(st, c, old, nw, a)
+			}
 		}
 		if strings.HasPrefix(c, "A_") {
 			fe.assume(tBool(true), Term{fmt.Sprintf("(forall ((r Int)) (! (=> (select %s r) (select %s r)) :pattern ((select %s r))))", old.S, nw.S, old.S), SBool})
